@@ -100,7 +100,7 @@ def gen_rerecord(rng):
 def check(run, replay=None):
     tier, seed = run.tier, run.seed
     rng = random.Random(seed * 92821 + 11)
-    C.standard_coq_phase(run, CID)
+    C.standard_coq_phase(run, CID, gens=("stack",))
     ok, msg = C.ensure_ocaml()
     bd = C.build_dir()
     builds = [("default", ""), ("thread-unsafe", "-DADEPT_STACK_THREAD_UNSAFE")]
